@@ -38,12 +38,29 @@ func TestC13Child(t *testing.T) {
 	rsum, dsum := c13Digests(atoi("VERIF_C13_SEED"))
 	signal.Ignore(syscall.SIGXFSZ)
 	lim := uint64(atoi("VERIF_C13_LIMIT"))
-	if err := syscall.Setrlimit(syscall.RLIMIT_FSIZE, &syscall.Rlimit{Cur: lim, Max: lim}); err != nil {
+	lift := os.Getenv("VERIF_C13_LIFT") == "1" // the limit holds while the entry is created only (a disk that was full for a moment)
+	var old syscall.Rlimit
+	syscall.Getrlimit(syscall.RLIMIT_FSIZE, &old)
+	limit := syscall.Rlimit{Cur: lim, Max: lim}
+	if lift {
+		limit.Max = old.Max
+	}
+	if err := syscall.Setrlimit(syscall.RLIMIT_FSIZE, &limit); err != nil {
 		fmt.Println("C13CHILD setrlimit-failed")
 		return
 	}
 	f, err := cache.CreateLevel(dir, sha1.New(), rsum, dsum, atoi("VERIF_C13_LEVEL"))
+	if lift {
+		if e := syscall.Setrlimit(syscall.RLIMIT_FSIZE, &old); e != nil {
+			fmt.Println("C13CHILD setrlimit-failed")
+			return
+		}
+	}
 	if err != nil {
+		if lift {
+			// what the caller of CreateLevel does with a failed creation (cmd/gts TryCache): the entry is removed
+			os.Remove(filepath.Join(dir, c13NameFor(rsum, dsum, "")))
+		}
 		fmt.Println("C13CHILD create-error")
 		return
 	}
@@ -419,7 +436,7 @@ func c13WriteFault(c c13Case) *Violation {
 	defer os.RemoveAll(dir)
 	cmd := exec.Command(os.Args[0], "-test.run", "^TestC13Child$")
 	cmd.Env = append(os.Environ(), "VERIF_C13_CHILD_DIR="+dir, "VERIF_C13_BODY="+c.Body, fmt.Sprint("VERIF_C13_LEN=", c.Len), fmt.Sprint("VERIF_C13_SEED=", c.Seed),
-		fmt.Sprint("VERIF_C13_CHUNKS=", c.Chunks), fmt.Sprint("VERIF_C13_LEVEL=", c.Level), fmt.Sprint("VERIF_C13_LIMIT=", c.Off))
+		fmt.Sprint("VERIF_C13_CHUNKS=", c.Chunks), fmt.Sprint("VERIF_C13_LEVEL=", c.Level), fmt.Sprint("VERIF_C13_LIMIT=", c.Off), fmt.Sprint("VERIF_C13_LIFT=", c.Mask))
 	out, _ := cmd.CombinedOutput()
 	status := ""
 	for _, ln := range strings.Split(string(out), "\n") {
@@ -940,6 +957,12 @@ func TestC13(t *testing.T) {
 					if chunks == 1 && level == levels[0] && seed == seeds[0] {
 						for _, lim := range []int{0, 1, 59, 60, 61, 60 + (size-60)/2, size - 20, size - 5, size - 3, size - 2, size - 1, size, size + 10} {
 							if lim >= 0 && !try(mk("write-limit", lim, 0)) {
+								return
+							}
+						}
+						// the same limit while the entry is created only: it is lifted before the body is written
+						for _, lim := range []int{0, 1, 20, 30, 59, 60} {
+							if !try(mk("write-limit", lim, 1)) {
 								return
 							}
 						}
